@@ -1,15 +1,18 @@
 #!/bin/bash
 # usage: tools/try_mutant.sh <dir with patch.diff demo.py> <check ids...>
-# Applies the patch to /repo, confirms tests pass + demo fails, runs the given checks, and reverts.
+# Applies the patch to a scratch worktree of /repo (never to /repo itself: proof agents replay inputs against /repo while this
+# runs), confirms tests pass + demo fails there, runs the given checks against the worktree (CASSIS_REPO) and removes it.
 d="$1"; shift
-cd /repo || exit 2
-if [ -n "$(git status --porcelain)" ]; then echo "/repo not clean"; exit 2; fi
-echo "== demo on clean tree"; PYTHONPATH=/repo /venv/bin/python "$d/demo.py" >/dev/null 2>&1; echo "demo clean rc=$?"
-git apply "$d/patch.diff" || { echo "patch does not apply"; exit 2; }
-trap 'git -C /repo checkout -- . ' EXIT
-echo "== tests with patch"; /venv/bin/python -m pytest -q -p no:cacheprovider -x 2>&1 | tail -1
-echo "== demo with patch"; PYTHONPATH=/repo /venv/bin/python "$d/demo.py" >/dev/null 2>&1; echo "demo patched rc=$?"
+W=/var/tmp/try_mutant_wt
+git -C /repo worktree remove --force $W >/dev/null 2>&1; rm -rf $W; git -C /repo worktree prune
+git -C /repo worktree add --detach $W HEAD >/dev/null 2>&1 || { echo "cannot create worktree"; exit 2; }
+trap 'git -C /repo worktree remove --force '$W' >/dev/null 2>&1; git -C /repo worktree prune' EXIT
+echo "== demo on clean tree"; PYTHONPATH=$W /venv/bin/python "$d/demo.py" >/dev/null 2>&1; echo "demo clean rc=$?"
+git -C $W apply "$d/patch.diff" || { echo "patch does not apply"; exit 2; }
+echo "== tests with patch"; (cd $W && PYTHONPATH=$W /venv/bin/python -m pytest -q -p no:cacheprovider -x 2>&1 | tail -1)
+echo "== demo with patch"; PYTHONPATH=$W /venv/bin/python "$d/demo.py" >/dev/null 2>&1; echo "demo patched rc=$?"
 cd /verif
 for p in "$@"; do
-  echo "== check $p"; ./check $p --tier quick 2>&1 | grep -E "VIOLATION|KNOWN|\[$p\]" | cut -c1-300
+  echo "== check $p"; CASSIS_REPO=$W ./check $p --tier quick 2>&1 | grep -E "VIOLATION|KNOWN|\[$p\]" | cut -c1-300
 done
+git checkout -- evidence 2>/dev/null
